@@ -47,6 +47,12 @@ def get_engine(name):
     return mod.ENGINE
 
 
+def n_systematic(eng, tier, focus):
+    if os.environ.get('VERIF_NO_SWEEP') or not hasattr(eng, 'systematic_count'):
+        return 0
+    return eng.systematic_count(tier, focus)
+
+
 class _Timeout(BaseException):
     pass
 
@@ -139,10 +145,14 @@ def _run_chunk(args):
     out = []
     seen = set()
     for idx in range(lo, hi):
-        R = run_random(seed, engine_name, focus, idx)
+        n_sys = n_systematic(eng, tier, focus)
         t0 = time.perf_counter()
         try:
-            scn = eng.generate(R, tier, focus)
+            if idx < n_sys:
+                scn = eng.systematic_at(idx, tier, focus)
+            else:
+                R = run_random(seed, engine_name, focus, idx - n_sys)
+                scn = eng.generate(R, tier, focus)
             ctx = execute_scenario(eng, scn, focus)
         except HarnessError as e:
             out.append({'idx': idx, 'harness_error': str(e), 'tb': traceback.format_exc()})
@@ -190,6 +200,8 @@ def run_batch(engine_name, focus, tier, seed, n_runs, workers=None, do_shrink=Tr
     findings = load_findings()
     known_patterns = [f for f in findings if f.get('status') == 'known' and f['property'] == focus]
     workers = workers or int(os.environ.get('VERIF_WORKERS', '0')) or min(16, os.cpu_count() or 1)
+    n_sys = n_systematic(eng, tier, focus)
+    n_runs = n_runs + n_sys
     chunk = chunk or max(1, min(50, n_runs // (workers * 4) or 1))
     tasks = []
     lo = 0
@@ -300,6 +312,10 @@ def summarise(engine_name, eng, focus, tier, seed, results, wall, known_patterns
         'wall_s': round(wall, 3),
         'violations': n_new,
     }
+    n_sys = n_systematic(eng, tier, focus)
+    if n_sys:
+        ev['coverage']['systematic_runs'] = n_sys
+        ev['coverage']['systematic_rule'] = eng.systematic_rule(tier, focus)
     if extra:
         ev['coverage'].update(extra)
     evdir = EVIDENCE_DIR
